@@ -788,8 +788,11 @@ def _seg_history(ctx, cfg, reader, E, segs, R, C, base_hist, reqs=None, pending=
         if step == 'refused':
             kind = r.choice(refusals)
             kw = _refused_call(r, kind, typ, segs, R, C)
-            st, val = _fetch(reader.get_total_pixel_matrix, **kw)
-            ctx.case(request_class='history:refused:' + kind, outcome='ok' if st == 'ok' else val.split(':')[0], **base_hist)
+            # the refused call, too, may come through the other accessor of a region (Segmentation.get_volume, tiled branch)
+            via_volume = r.random() < 0.3
+            st, val = _fetch(reader.get_volume if via_volume else reader.get_total_pixel_matrix, **kw)
+            ctx.case(request_class='history:refused:' + kind, outcome='ok' if st == 'ok' else val.split(':')[0],
+                     history_accessor='get_volume' if via_volume else 'get_total_pixel_matrix', **base_hist)
             if st == 'ok' and kind == 'region-out-of-range':
                 ctx.fail({'seg': cfg, 'history_step': step_no, 'steps': steps[:step_no + 1], 'refused_call': kind},
                          {'what': 'request outside the matrix was not refused'}, site='Segmentation.get_total_pixel_matrix')
@@ -828,9 +831,15 @@ def _seg_history(ctx, cfg, reader, E, segs, R, C, base_hist, reqs=None, pending=
             kw.update(combine_segments=False, rescale_fractional=False, dtype=r.choice([np.uint16, np.int32, np.float64]))
         else:
             kw.update(combine_segments=False, rescale_fractional=False)
-        st, val = _fetch(reader.get_total_pixel_matrix, row_start=rs, row_end=re, column_start=cs, column_end=ce, **kw)
+        # a third of the non-empty reads go through Segmentation.get_volume (its own tiled branch: the request is normalised to 0-based
+        # indices, handed to get_total_pixel_matrix as indices; the array gets a leading axis of length 1)
+        via_volume = orc[0] == 'ok' and orc[1] < orc[2] and orc[3] < orc[4] and r.random() < 0.33
+        if via_volume:
+            st, val = _fetch(lambda: np.asarray(reader.get_volume(row_start=rs, row_end=re, column_start=cs, column_end=ce, **kw).array)[0])
+        else:
+            st, val = _fetch(reader.get_total_pixel_matrix, row_start=rs, row_end=re, column_start=cs, column_end=ce, **kw)
         case = {'seg': cfg, 'history_step': step_no, 'steps': steps[:step_no + 1], 'request': list(req), 'segments': sub,
-                'after_refused_call': after_refusal}
+                'after_refused_call': after_refusal, 'accessor': 'get_volume' if via_volume else 'get_total_pixel_matrix'}
         if use_model:
             combine = step in ('combined', 'combined-relabel')
             data = _chan_data(sub, combine, step == 'combined-relabel')
@@ -854,7 +863,8 @@ def _seg_history(ctx, cfg, reader, E, segs, R, C, base_hist, reqs=None, pending=
             mcases.append(case)
         ctx.case(request_class='history:' + step, outcome='ok' if st == 'ok' else val.split(':')[0],
                  history_subset=('all' if len(sub) == len(segs) else 'subset') + ('-sorted' if sub == sorted(sub) else '-permuted'),
-                 history_after=('refused:' + after_refusal) if after_refusal else 'read', **base_hist)
+                 history_after=('refused:' + after_refusal) if after_refusal else 'read',
+                 history_accessor='get_volume' if via_volume else 'get_total_pixel_matrix', **base_hist)
         designed_refusal = False
         key = (tuple(req), step, tuple(sub), str(kw.get('dtype')))
         # ---- oracle for this step
